@@ -892,6 +892,59 @@ Example C13_roundtrips_hold : forallb ex_roundtrip roundtrips = true.
 Proof. exact roundtrips_hold. Qed.
 Print Assumptions C13_roundtrips_hold.
 
+(** ** format_parse_roundtrip END TO END for the timestamp item "%s" (Proofs/C13Stamp.v; resolution by the
+    timestamp arm of Parsed, C14_to_naive_datetime_of_timestamp / C14_utc_datetime_of_timestamp): for
+    EVERY NaiveDateTime and EVERY DateTime<Utc> -- every supported date, years before 1970 (negative
+    timestamps, printed with "-") included, every time of day -- parsing the formatted text returns
+    the value at whole seconds ([floor_ndt]: fraction and leap-second flag dropped, which a count of
+    non-leap seconds cannot carry; the identity on whole-second values). *)
+From V Require Proofs.C13Stamp.
+Theorem C13_stamp_ndt_roundtrip : forall y o v,
+  Proofs.C08Sweeps.repr y o (Model.DateTime.nd_date v) -> valid_time (Model.DateTime.nd_time v) ->
+  exists text,
+    Model.Format.write_items (Model.Format.fa_of_ndt v) Proofs.C13Stamp.STAMP_FMT [] = Model.Format.fok text /\
+    (let+ p := parse Model.Parsed.parsed_new text Proofs.C13Stamp.STAMP_FMT in
+     pr_of (Model.Parsed.to_naive_datetime_with_offset p 0)) = pok (Proofs.C13Stamp.floor_ndt v).
+Proof. exact Proofs.C13Stamp.ndt_stamp_roundtrip. Qed.
+Print Assumptions C13_stamp_ndt_roundtrip.
+
+Theorem C13_stamp_utc_roundtrip : forall y o v,
+  Proofs.C08Sweeps.repr y o (Model.DateTime.nd_date v) -> valid_time (Model.DateTime.nd_time v) ->
+  exists a text,
+    Model.Format.fa_of_utc v = Val a /\
+    Model.Format.write_items a Proofs.C13Stamp.STAMP_FMT [] = Model.Format.fok text /\
+    (let+ p := parse Model.Parsed.parsed_new text Proofs.C13Stamp.STAMP_FMT in pr_of (Model.Parsed.to_datetime p))
+      = pok (Model.DateTime.mk_dtz (Proofs.C13Stamp.floor_ndt v) 0).
+Proof. exact Proofs.C13Stamp.utc_stamp_roundtrip. Qed.
+Print Assumptions C13_stamp_utc_roundtrip.
+
+(* ... over the format string "%s" (lazily driven StrftimeItems, as parse_from_str does) *)
+Theorem C13_stamp_ndt_parse_from_str : forall y o v,
+  Proofs.C08Sweeps.repr y o (Model.DateTime.nd_date v) -> valid_time (Model.DateTime.nd_time v) ->
+  exists text,
+    Model.Format.delayed_display (Model.Format.fa_of_ndt v) (Model.Strftime.sf_new Proofs.C13Stamp.stamp_format) = Model.Format.fok text /\
+    ndt_parse_from_str text Proofs.C13Stamp.stamp_format = pok (Proofs.C13Stamp.floor_ndt v).
+Proof. exact Proofs.C13Stamp.ndt_stamp_parse_from_str. Qed.
+Print Assumptions C13_stamp_ndt_parse_from_str.
+
+Theorem C13_stamp_utc_parse_from_str : forall y o v,
+  Proofs.C08Sweeps.repr y o (Model.DateTime.nd_date v) -> valid_time (Model.DateTime.nd_time v) ->
+  exists a text,
+    Model.Format.fa_of_utc v = Val a /\
+    Model.Format.delayed_display a (Model.Strftime.sf_new Proofs.C13Stamp.stamp_format) = Model.Format.fok text /\
+    dt_parse_from_str text Proofs.C13Stamp.stamp_format = pok (Model.DateTime.mk_dtz (Proofs.C13Stamp.floor_ndt v) 0).
+Proof. exact Proofs.C13Stamp.utc_stamp_parse_from_str. Qed.
+Print Assumptions C13_stamp_utc_parse_from_str.
+
+Example C13_stamp_roundtrip_inhabited :
+  Proofs.C08Sweeps.repr 1969 365 (Proofs.C08Sweeps.mkdate 1969 365) /\ valid_time (Model.Time.mk_time 86399 0) /\
+  Proofs.C08Sweeps.repr (-262143) 1 (Proofs.C08Sweeps.mkdate (-262143) 1) /\ valid_time (Model.Time.mk_time 0 0) /\
+  Proofs.C13Stamp.stamp_text (-1) = [45; 49] /\
+  ndt_parse_from_str [45; 49] Proofs.C13Stamp.stamp_format =
+    pok (Model.DateTime.mk_ndt (Proofs.C08Sweeps.mkdate 1969 365) (Model.Time.mk_time 86399 0)).
+Proof. exact Proofs.C13Stamp.stamp_roundtrip_inhabited. Qed.
+Print Assumptions C13_stamp_roundtrip_inhabited.
+
 (** ** never-Panic (slice safety) for EVERY item list, the Fixed::RFC2822 item included
     (Proofs/C13Total.v; the older forms above, which exclude that item, are kept under their names).
     [Proofs.C13Total.item_wf]: the only condition on an item is that a literal is a string (what
